@@ -7,7 +7,7 @@ patch="$1"; prop="$2"; tier="${3:-quick}"
 tag="$(basename "$(dirname "$patch")")-$prop-$$"
 wt="/tmp/mt/$tag"; out="/tmp/mt/$tag.out"; mkdir -p /tmp/mt
 git -C /repo worktree add -q --detach "$wt" HEAD || exit 2
-( cd "$wt" && { git apply "$patch" 2>/tmp/mt/$tag.err || git apply --recount -C1 "$patch" 2>>/tmp/mt/$tag.err; } ) || { echo "APPLY-FAILED"; cat /tmp/mt/$tag.err; git -C /repo worktree remove --force "$wt"; exit 3; }
+( cd "$wt" && { git apply "$patch" 2>/tmp/mt/$tag.err || { git apply --3way "$patch" 2>>/tmp/mt/$tag.err && git reset -q; } || { git checkout -q -- . ; git apply --recount -C1 "$patch" 2>>/tmp/mt/$tag.err; }; } ) || { echo "APPLY-FAILED"; cat /tmp/mt/$tag.err; git -C /repo worktree remove --force "$wt"; exit 3; }
 mkdir -p "$wt.ev" "$wt.rp"
 cd /verif && VERIF_REPO="$wt" VERIF_EVIDENCE_DIR="$wt.ev" VERIF_REPLAYS_DIR="$wt.rp" ./check "$prop" --tier "$tier" > "$out" 2>&1
 rc=$?
